@@ -54,8 +54,9 @@ def response(code, payload=b""):
 
 def check_frame(frame, direction=None, code=None):
     """-> (errors, info).  errors: list of violated rule names (empty = well formed).
-    info: {"kind": "ack"} or {"kind": "data", "len": LEN field, "data": bytes (lenient: everything between the
-    8 byte header and the 2 byte trailer), "dir": data[0], "code": data[1], "payload": data[2:]}.
+    info: {"kind": "ack"} or {"kind": "data", "len": LEN field, "data": bytes (lenient: the LEN bytes after the
+    8 byte header if the frame holds that many, else everything between header and the 2 byte trailer),
+    "dir": data[0], "code": data[1], "payload": data[2:]}.
     direction: expected first data byte (D6h/D7h) or None; code: expected second data byte or None."""
     frame = bytes(frame)
     if frame == ACK:
@@ -79,14 +80,13 @@ def check_frame(frame, direction=None, code=None):
             errors.append("len-mismatch")
     if len(frame) >= 10:
         data = frame[8:-2]
-        info["data"] = data
-        total = frame[-2]
-        for b in data:
-            total = (total + b) % 256
-        if total != 0:
+        if (sum(data) + frame[-2]) % 256 != 0:
             errors.append("dcs")
         if frame[-1] != 0:
             errors.append("postamble")
+        if "len-mismatch" in errors and 8 + info["len"] <= len(frame):
+            data = frame[8:8 + info["len"]]          # lenient reading for the simulator
+        info["data"] = data
         if len(data) >= 1:
             info["dir"] = data[0]
             if direction is not None and data[0] != direction:
